@@ -1,9 +1,7 @@
 
 // ===== appended by /verif (cfg(besok_jsonpath_rust_verif) only): access to private functions =====
-#[cfg(besok_jsonpath_rust_verif)]
+#[cfg(all(besok_jsonpath_rust_verif, feature = "vx_sel"))]
 pub(crate) mod verif_x {
     use super::*;
     pub(crate) fn process_slice<'a, T: Queryable>(p: Pointer<'a, T>, start: &Option<i64>, end: &Option<i64>, step: &Option<i64>) -> Data<'a, T> { super::process_slice(p, start, end, step) }
-    pub(crate) fn process_wildcard<T: Queryable>(p: Pointer<T>) -> Data<T> { super::process_wildcard(p) }
-    pub(crate) fn normalize_json_key(input: &str) -> String { super::normalize_json_key(input) }
 }
